@@ -19,7 +19,13 @@ POSITIONAL = {
 }
 
 
+#: obligations whose failure contradicts the property (rule, construct pattern, why); every other failure is 'not recognised'
+POSITIVE: list[tuple[str, str, str]] = [
+]
+
+
 def run(ctx: Ctx) -> None:
+    ctx.positive_table = list(POSITIVE)
     prog = ctx.prog
     ctx.rule('C13.R1', 'positional discipline: after remove() the row index has gaps, so every selection of rows by integer position uses .iloc on the frame whose '
              'length bounds the positions; .loc / plain [] with positions is a violation')
@@ -47,7 +53,7 @@ def run(ctx: Ctx) -> None:
             frame = unparse(n.value.value)
             ok = n.value.attr == 'iloc'
             ctx.add('C13.R1', f'{qn}:{frame}.{n.value.attr}', ok, (f.file, n.lineno),
-                    f'{frame}.{n.value.attr}[{unparse(n.slice)[:50]}] ({why})' + ('' if ok else ': positions are used as labels - wrong rows (or KeyError) once the index has gaps'), f'{frame}.{n.value.attr}')
+                    f'{frame}.{n.value.attr}[{unparse(n.slice)[:50]}] ({why})' + ('' if ok else ': positions are used as labels - wrong rows (or KeyError) once the index has gaps'), f'{frame}.{n.value.attr}', positive=n.value.attr in ('loc', 'at'))
             # the bound of the positions is the length of the same frame
             txt = unparse(f.node)
             rnd = [c for c in ast.walk(n.slice) if isinstance(c, ast.Call) and call_name(c) == 'randint']
@@ -158,7 +164,16 @@ else:
     if len(setg) == 1 and len(choose) == 1:
         guard = [n for n in walk_no_nested(f.node) if isinstance(n, ast.If) and setg[0] in n.body]
         ok = len(guard) == 1 and unparse(guard[0].test) == 'self.is_panel()' and cfg.dominates(cfg.node_of(guard[0]), cfg.node_of(choose[0])) and seq(setg[0]) < seq(choose[0])
-    ctx.add('C13.R3', 'Database.split:panel', ok, f, 'on panel data the rows of one individual are never separated (groups = panel column whenever is_panel())' if ok else 'on panel data the grouping by individual is not guaranteed any more', 'panel')
+    narrowed = None
+    if not ok and len(setg) == 1:
+        # the assignment is there but under a stronger condition than "the data are panel data"
+        guard = [n for n in walk_no_nested(f.node) if isinstance(n, ast.If) and any(x is setg[0] for x in ast.walk(n))]
+        tests = [unparse(v) for g_ in guard for v in (g_.test.values if isinstance(g_.test, ast.BoolOp) and isinstance(g_.test.op, ast.And) else [g_.test])]
+        extra = [t for t in tests if t != 'self.is_panel()']
+        if 'self.is_panel()' in tests and extra:
+            narrowed = f'`groups = self.panelColumn` is executed only when `{" and ".join(extra)}` also holds: on panel data, a call without `groups` shuffles single rows and separates the observations of one individual'
+    ctx.add('C13.R3', 'Database.split:panel', ok if (ok or narrowed) else None, f, 'on panel data the rows of one individual are never separated (groups = panel column whenever is_panel())' if ok else
+            (narrowed or 'the way the panel column becomes the grouping column is not in the expected form'), 'panel', positive=bool(narrowed))
 
 
 _D = 'src/biogeme/database.py'
